@@ -25,6 +25,17 @@ docstring of ``LinearFilterBank.get_truncated_response`` (re-typed here, no libr
                        answers.  Case kind {"bank", "filt", "ops": [[width, order(, filter)], ...]}: the widths are
                        visited in that order on one bank object, `order` (a permutation of "tfh") is the order in
                        which truncated / full / half are requested at that width.
+
+Boundary block (first in the enumeration).  The statement is "for every bank, filter index and DFT width of at least 2"
+and its quantifier "all constructible banks (types x scales x rates x ranges x flags) ... DFT widths from 2 up to several
+thousand, odd and even": banks are also built with EXPLICIT boundary-valued ranges -- low_hz = 0 (or the scale's lowest
+admissible value), high_hz exactly at the Nyquist, just below it, and (triangular banks, whose constructor documents a
+"1 Hz leeway" above the Nyquist) at Nyquist + {1, 0.5, 0.3, 1e-3} Hz; Fbank / Gabor / gammatone at their documented
+maximum sampling_rate // 2 -- on sampling rates 100, 64, 31 (odd: Nyquist 15.5), 8000, 11025, 16000 Hz, with widths
+chosen so that a DFT bin falls on / next to the top edge: around rate/(2d) and rate/d for an offset of d Hz (the first odd
+/ even widths with a bin inside (Nyquist, Nyquist + d]), rate, rate+1, 2 rate, 2 rate+1 (bins at whole and half Hz), and
+2, 3.  Every clause above ("stays within the half spectrum", "equals the leading bins of the full one", "identical for
+the compactly supported ...", "vanish on negative frequencies", Hermitian, finite) is evaluated on every filter.
 """
 import time
 import warnings
@@ -405,6 +416,49 @@ def _grid(tier):
                             yield spec
 
 
+BOUNDARY_RATES = [100, 8000, 31, 16000, 64, 11025]
+TRI_TOP_OFFSETS = [1.0, 0.5, 0.3, None, 0.0, 1e-3, -0.5]  # high_hz - Nyquist; > 0: inside the documented 1 Hz leeway
+
+
+def _boundary_widths(rate, d, cap):
+    """odd and even widths at which a DFT bin falls on / next to the top edge Nyquist + d (see the module docstring)"""
+    r = int(rate)
+    ws = [r, r + 1, 2 * r, 2 * r + 1, r // 2, r // 2 + 1, 2, 3]
+    if d is not None and d > 0:
+        t = int(np.ceil(rate / (2.0 * d)))
+        ws = list(range(t - 1, t + 3)) + list(range(2 * t - 1, 2 * t + 3)) + ws
+    out = []
+    for W in ws:
+        if 2 <= W <= cap and W not in out:
+            out.append(W)
+    return out
+
+
+def _boundary_specs(tier):
+    """(spec, widths): explicit boundary-valued low_hz / high_hz; cheap and most discriminating first"""
+    n = 3
+    lin = {"name": "linear", "low_hz": 0.0, "slope_hz": 1.0}
+    for rate in BOUNDARY_RATES:
+        nyq = rate / 2.0
+        for scale in [{"name": "mel"}, lin, {"name": "bark"}, {"name": "octave", "low_hz": 20.0 if rate > 100 else 2.0}]:
+            floor = scale["low_hz"] if scale["name"] == "octave" else 0.0
+            for analytic in (False, True):
+                for d in TRI_TOP_OFFSETS:
+                    high = None if d is None else nyq + d
+                    spec = {"bank": "tri", "scale": scale, "num_filts": n, "rate": rate, "low_hz": floor, "high_hz": high, "analytic": analytic}
+                    yield spec, _boundary_widths(rate, d, 17000 if tier == "quick" else 40000)
+        # the other classes document high_hz <= sampling_rate // 2 as their largest admissible value
+        top = float(rate // 2)
+        for analytic in (False, True):
+            for high in (top, None, top - 0.5):
+                yield {"bank": "fbank", "scale": {"name": "mel"}, "num_filts": n, "rate": rate, "low_hz": 0.0, "high_hz": high, "analytic": analytic}, _boundary_widths(rate, None, 17000)
+        if rate <= 100:
+            for scale in [{"name": "mel"}, lin]:
+                for high in (top, None):
+                    yield {"bank": "gabor", "scale": scale, "num_filts": n, "rate": rate, "low_hz": 0.0, "high_hz": high, "erb": False, "l2": False}, _boundary_widths(rate, None, 260)
+                    yield {"bank": "gamma", "scale": scale, "num_filts": n, "rate": rate, "low_hz": 0.0, "high_hz": high, "order": 4, "max_centered": False, "erb": False, "l2": False}, _boundary_widths(rate, None, 260)
+
+
 def _interleave(grid, perm):
     by = {}
     for i in perm:
@@ -449,7 +503,7 @@ def run(tier, seed):
     F, S, config = _mods()
     thr = float(config.EFFECTIVE_SUPPORT_THRESHOLD)
     quick = tier == "quick"
-    col = _common.Collector(PROPERTY, tier, seed, budget_s=45 if quick else 560)
+    col = _common.Collector(PROPERTY, tier, seed, budget_s=48 if quick else 560)
     rng = _common.make_rng(seed, "c06")
     worst = {}
     dup = {}
@@ -463,7 +517,8 @@ def run(tier, seed):
             key = (clause, spec["bank"])
             dup[key] = dup.get(key, 0) + 1
             if dup[key] <= 2:
-                col.fail(clause, case, msg)
+                rng_txt = f"low_hz={spec['low_hz']!r}, high_hz={spec['high_hz']!r} (Nyquist {spec['rate'] / 2.0!r})"
+                col.fail(clause, case, f"[{spec['bank']}{' analytic' if spec.get('analytic') else ''} {spec['scale']['name']}, rate {spec['rate']}, {rng_txt}, filter {k} of {spec['num_filts']}, width {W}] {msg}")
         if "rebuild_over_thr" in info:
             worst[spec["bank"]] = max(worst.get(spec["bank"], 0.0), info["rebuild_over_thr"])
         if info.get("half_exact") is False:
@@ -506,6 +561,28 @@ def run(tier, seed):
     for n, o in ((5, 4), (3, 6), (8, 3)):  # gammatone supports between one and two periods
         core.append({"bank": "gamma", "scale": {"name": "linear", "low_hz": 0.0, "slope_hz": 1.0}, "num_filts": n, "rate": 8000, "low_hz": 0.0, "high_hz": None, "order": o, "max_centered": False, "erb": False, "l2": False})
     specs = core + [grid[i] for i in order]
+    # phase B: explicit boundary-valued ranges with widths that put a bin on / next to the top edge
+    t_b = time.time()
+    bnd_budget = 5 if quick else 60
+    n_bnd = n_bnd_banks = n_bnd_top = n_bnd_leeway = 0
+    for spec, widths in _boundary_specs(tier):
+        if time.time() - t_b > bnd_budget or col.too_many_failures():
+            break
+        bank = bank_of(spec)
+        if bank is None:
+            continue
+        n_bnd_banks += 1
+        nyq = spec["rate"] / 2.0
+        for W in widths:
+            for k in range(spec["num_filts"]):
+                do(bank, spec, k, W)
+                n_bnd += 1
+            # a bin of this width lies in (Nyquist, high_hz]: only the clamp to the Nyquist keeps it out of the last filter
+            if spec["high_hz"] is not None and spec["high_hz"] > nyq and int(W * spec["high_hz"] / spec["rate"]) > W // 2:
+                n_bnd_leeway += 1
+            if (W // 2) * spec["rate"] / W > nyq - 1.0:
+                n_bnd_top += 1
+    t_bnd = time.time() - t_b
     # phase 0: sessions -- one bank object answers many requests in varied orders (see C06.same_object)
     t_s = time.time()
     sess_budget = 5 if quick else 60
@@ -582,6 +659,11 @@ def run(tier, seed):
         + ", ".join(f"{k[8:]} {v[1]}/{v[0]}" for k, v in sorted(counts.items()) if k.startswith("compact_"))
         + " (the rest differ by <= 4 ulp: scalar `** 0.5` vs array `** 0.5`)"
     )
+    col.note(
+        f"boundary block: {n_bnd} (filter, width) cases on {n_bnd_banks} banks with explicit low_hz at 0 / the scale's lowest value and high_hz at the Nyquist, "
+        f"just below, and (triangular) inside the documented 1 Hz leeway above it, rates {BOUNDARY_RATES}; {n_bnd_top} (bank, width) pairs have a bin within 1 Hz "
+        f"of the Nyquist, {n_bnd_leeway} have a bin strictly inside (Nyquist, high_hz]; {t_bnd:.1f} s of {bnd_budget} s"
+    )
     col.note(f"sessions (one bank object, many widths / request orders, each answer also compared with a fresh bank): {n_sess} with {n_sess_visits} (filter, width) visits in {sess_budget} s")
     col.note(f"banks visited: {counts['banks']} with widths 2..64, {n_big} of them also with {BIG_WIDTHS}; half=True prefix not bit-identical in {counts['inexact_half']} cases")
     return col.result(
@@ -590,7 +672,9 @@ def run(tier, seed):
             f"BOUNDED ({tier}): grid 4 banks x 4 scales x rates {'{8k,16k}' if quick else '{8k,16k,44.1k}'} x num_filts {'{1,2,5,11}' if quick else '{1,2,5,11,40}'} x 3 ranges "
             f"(incl. low_hz = 0 -> wrap below 0) x flags ({len(grid)} configurations, visited in seeded class-interleaved order within the time budget, every 5th "
             f"replaced by a seeded random configuration), all filters (n <= 11; ends and middle otherwise), widths 2..64 and then {BIG_WIDTHS}; "
-            f"before that {sess_budget} s of sessions on the same walk (one bank object, widths 2m, m+1, 2m-1, m for m in {{32, 64, 128, 256}} and two seeded m < 200, seeded request orders, two filters)"
+            f"first of all a boundary block (<= {bnd_budget} s): triangular banks x 4 scales x real/analytic x rates {BOUNDARY_RATES} x explicit high_hz = Nyquist + {TRI_TOP_OFFSETS} Hz (None = default) with low_hz = 0, "
+            f"Fbank / Gabor / gammatone with high_hz = rate//2, all 3 filters, widths around rate/(2d), rate/d, rate, 2 rate, rate/2 (+1), 2, 3 (<= 17000; <= 260 and rates <= 100 for Gabor / gammatone); "
+            f"before the grid {sess_budget} s of sessions on the same walk (one bank object, widths 2m, m+1, 2m-1, m for m in {{32, 64, 128, 256}} and two seeded m < 200, seeded request orders, two filters)"
         ),
         assumptions=ASSUMPTIONS,
     )
